@@ -34,7 +34,9 @@ WORDS = ['WHOLE', 'FOODS', 'MARKET', 'Starbucks', 'store', 'UBER', 'EATS', 'AMZN
          # outside the Basic Multilingual Plane (emoji, CJK extension B), other scripts, letters whose case forms differ in length
          '\U0001f355PIZZA', 'PIZZA\U0001f355', '\U00020bb7\u91ce\u5bb6', '\u6771\u4eac', 'Stra\u00dfe', '\u0130STANBUL', '\u041c\u0410\u0413\u0410\u0417\u0418\u041d', '\U0001f600',
          # brackets that do not balance within the words discover keeps; typographic quotes
-         '(GAM', '[REF', 'REFUND)', 'x]', '(BAZ', 'QUX)', '{open', 'close}', 'JOE\u2019S', '\u201cBEST\u201d', '\u2018n\u2019', '\u00abX\u00bb']
+         '(GAM', '[REF', 'REFUND)', 'x]', '(BAZ', 'QUX)', '{open', 'close}', 'JOE\u2019S', '\u201cBEST\u201d', '\u2018n\u2019', '\u00abX\u00bb',
+         # an inch / quote mark followed later by a hash; repeated words
+         '12"', "5'", 'A"B', '#4521', '#9', 'PIZZA', 'PIZZA', 'TACO', 'TO']
 PREFIX = ['', '', '', 'SQ *', 'TST*', 'TST* ', 'APLPAY ', 'SP ', 'PP*', 'GOOGLE *', 'sq *', 'Tst*']
 SUFFIX = ['', '', ' WA', ' CA', ' 98101', ' 12345678 SEATTLE', ' #1234', ' #12', ' 1234567', ' wa', ' NY 10001', ' 0042', ' x1']
 MIDDLE = ['', '', '', ' #123', ' 12', ' #7', ' 00123']
